@@ -71,6 +71,13 @@ func drawOp(t *rapid.T, ss *gen.SchemaSpec) c12Op {
 
 	op := c12Op{kind: kind, typ: ts.Name, ts: ts}
 
+	// (identifiers of a linkage may bear the name of another type of the
+	// schema than the relationship's target: the IDs are what is read)
+	known := make([]string, len(ss.Types))
+	for i := range ss.Types {
+		known[i] = ss.Types[i].Name
+	}
+
 	switch kind {
 	case "parse-url":
 		op.raw = gen.URLRequest(t, ss, gen.URLOpts{Valid: rapid.Bool().Draw(t, "validurl")}).Render(t, "render")
@@ -80,11 +87,11 @@ func drawOp(t *rapid.T, ss *gen.SchemaSpec) c12Op {
 			op.reps = 60
 		}
 	case "unmarshal-document", "roundtrip-document", "new-request":
-		pc := gen.ResourcePayload(t, ts, gen.PayloadOpts{Canonical: true, AllFieldsOften: true})
+		pc := gen.ResourcePayload(t, ts, gen.PayloadOpts{Canonical: true, AllFieldsOften: true, ForeignTypes: known, ForeignPerTen: 2})
 		op.payload = []byte(`{"data":` + pc.Text + `,"meta":{"k":1}}`)
 		op.resMeta = pc.ResMeta
 	case "unmarshal-partial":
-		pc := gen.ResourcePayload(t, ts, gen.PayloadOpts{Canonical: true})
+		pc := gen.ResourcePayload(t, ts, gen.PayloadOpts{Canonical: true, ForeignTypes: known, ForeignPerTen: 2})
 		op.payload = []byte(pc.Text)
 		op.resMeta = pc.ResMeta
 	case "unmarshal-collection":
@@ -92,7 +99,7 @@ func drawOp(t *rapid.T, ss *gen.SchemaSpec) c12Op {
 		// list in four has a member that is refused (an unknown field).
 		members := []string{}
 		for i, n := 0, rapid.IntRange(0, 4).Draw(t, "nmembers"); i < n; i++ {
-			members = append(members, gen.ResourcePayload(t, ts, gen.PayloadOpts{Canonical: true, AllFieldsOften: true}).Text)
+			members = append(members, gen.ResourcePayload(t, ts, gen.PayloadOpts{Canonical: true, AllFieldsOften: true, ForeignTypes: known, ForeignPerTen: 2}).Text)
 		}
 
 		if rapid.IntRange(0, 3).Draw(t, "badmember") == 0 {
